@@ -323,11 +323,31 @@ func init() {
 var opaqueErrType types.Type = types.NewNamed(types.NewTypeName(0, nil, "opaqueError", nil), types.NewStruct(nil, nil), nil)
 
 func putUint(in *Interp, st *State, bv Value, v Value, n int, instr ssa.Instruction) (Value, bool) {
+	if ch, ok := bv.(*Choice); ok {
+		// multi-valued destination: one guarded write per alternative
+		alive := false
+		for _, a := range ch.alts {
+			if _, ok := putUintG(in, st, a.g, a.v, v, n, instr); ok {
+				alive = true
+			}
+		}
+		return nil, alive
+	}
+	return putUintG(in, st, tTrue, bv, v, n, instr)
+}
+
+func putUintG(in *Interp, st *State, g *Term, bv Value, v Value, n int, instr ssa.Instruction) (Value, bool) {
 	b, ok := bv.(SliceVal)
 	if !ok {
 		unsupported("PutUint into %T", bv)
 	}
 	if b.len < n {
+		if g != tTrue {
+			in.oblige("panic", "index out of range (PutUint)", And(st.abs(), g), in.posOf(instr))
+			st.pc = And(st.pc, Not(g))
+			in.drops++
+			return nil, false
+		}
 		in.oblige("panic", "index out of range (PutUint)", st.abs(), in.posOf(instr))
 		in.drops++
 		return nil, false
@@ -366,12 +386,18 @@ func putUint(in *Interp, st *State, bv Value, v Value, n int, instr ssa.Instruct
 		cells = fill(v)
 	}
 	if b.obj.pre && in.frozen && !in.monitorOff {
-		in.oblige("frame", "PutUint into pre-existing object "+b.obj.label, st.abs(), in.posOf(instr))
+		in.oblige("frame", "PutUint into pre-existing object "+b.obj.label, And(st.abs(), g), in.posOf(instr))
 	}
 	arr := sliceArr(st.heap, b)
 	out := make([]Value, len(arr.elems))
 	copy(out, arr.elems)
-	copy(out[b.off:b.off+n], cells)
+	if g == tTrue {
+		copy(out[b.off:b.off+n], cells)
+	} else {
+		for k := 0; k < n; k++ {
+			out[b.off+k] = mergeValue(g, cells[k], arr.elems[b.off+k])
+		}
+	}
 	sliceSetArr(st.heap, b, &Agg{elems: out})
 	return nil, true
 }
